@@ -359,7 +359,7 @@ def match(path, op, val="", ty="bexpr"):
             "mode": "", "n1": "", "n2": ""}
 
 
-def make_world(worlds, docs, cfgs_all, cfgsel, atoms, combo, colls, maxn, extra_strings=(), extra_lits=(), nest=False):
+def make_world(worlds, docs, cfgs_all, cfgsel, atoms, combo, colls, maxn, extra_strings=(), extra_lits=(), nest=False, want_parts=False):
     """assemble the world JSON shared by TLC and the harness"""
     strings = set(extra_strings)
     for d in docs:
@@ -390,7 +390,7 @@ def make_world(worlds, docs, cfgs_all, cfgsel, atoms, combo, colls, maxn, extra_
     return {
         "worlds": worlds, "docs": docs, "cfgs": [cfgs_all[i] for i in cfgsel], "cfgsel": cfgsel,
         "atoms": atoms, "combo": [i + 1 for i in combo], "colls": colls, "maxn": maxn,
-        "floattab": ft, "regextab": rt, "nest": nest,
+        "floattab": ft, "regextab": rt, "nest": nest, "parts": want_parts,
     }
 
 
@@ -405,6 +405,154 @@ def atoms_flat(atoms):
     for a in atoms:
         rec(a)
     return out
+
+
+# ---------------------------------------------------------------------------------------
+# atoms
+
+NUM = ["0", "1", "-5", "5", "0x5", "0b101", "1_0", "-0", "1.5", "99999999999999999999", "1e400", "abc", "", "T", "+5", "05", "017", "08",
+       "1.0000000596046448", "16777217.000000001", "9007199254740993", "9007199254740992", "0x1p-2", "1e-400", ".5", "5.", "inf"]
+BOOLS = ["true", "false", "1", "0", "T", "F", "TRUE", "yes", "", "t", "True", "tRUE"]
+STRS = ["hello", "ell", "", "abc", "^h.*o$", "(a|b", "l{2}", "x", "k", "a", "1", "[0-9]+", "^$", "/usr/bin", "o w"]
+CONT = ["1", "a", "x", "", "abc", "5", "true", "k", "0", "http", "maybe", "0.0", "1.5", "s", "one", "2"]
+ABSENT = ["1", "a", ""]
+OPS_V = ["==", "!=", "in", "notin", "matches", "notmatches"]
+OPS_E = ["empty", "notempty"]
+
+
+def pool_for(node):
+    if node is None:
+        return ABSENT
+    k = node["k"]
+    if k == "ptr":
+        return pool_for(node["to"])
+    if k == "bool":
+        return BOOLS
+    if k in ("int", "uint", "f32", "f64", "jnum"):
+        return NUM
+    if k == "str":
+        return STRS
+    if k in ("list", "map"):
+        return CONT
+    return ABSENT + ["abc", "0"]
+
+
+def atoms_for_docs(docs, depth, rnd, per_path=None, absent=True, ops_v=OPS_V, ops_e=OPS_E, extra_lits=()):
+    """match atoms for every structural path of the documents; literals are drawn from the pool of the node's kind
+    (all of it, or a seeded sample of per_path) plus the node's own value spellings"""
+    paths = []
+    for d in docs:
+        walk_paths(d["av"], [], depth, paths, absent)
+    bypath = {}
+    pools = {}
+    for p, node in paths:
+        if not p:
+            continue
+        key = tuple(p)
+        own = bypath.setdefault(key, [])
+        pl = pools.setdefault(key, [])
+        for l in pool_for(node):
+            if l not in pl:
+                pl.append(l)
+        if node is not None:
+            for t in own_text(node):
+                if t not in own:
+                    own.append(t)
+            nd = node["to"] if node["k"] == "ptr" else node
+            if nd["k"] == "list":
+                for e in nd["v"][:3]:
+                    for t in own_text(e):
+                        if t not in own:
+                            own.append(t)
+            if nd["k"] == "map":
+                for e in nd["v"][:2]:
+                    kt = key_text(e["key"])
+                    if kt is not None and kt not in own:
+                        own.append(kt)
+    atoms = []
+    for key in sorted(bypath):
+        pl = list(pools[key])
+        if per_path is not None and len(pl) > per_path:
+            rnd.shuffle(pl)
+            pl = pl[:per_path]
+        lits = pl + [t for t in bypath[key] if t not in pl] + [t for t in extra_lits if t not in pl]
+        for op in ops_v:
+            for l in lits:
+                atoms.append(match(key, op, l))
+        for op in ops_e:
+            atoms.append(match(key, op))
+    return atoms, sorted(bypath)
+
+
+def cases_cfg(invariants=("BuilderOK",)):
+    return ('SPECIFICATION Spec\nCONSTANT WorldFile = "world.json"\n' + "".join("INVARIANT %s\n" % i for i in invariants)
+            + "CHECK_DEADLOCK FALSE\n")
+
+
+def run_world(chk, tag, world, module="Cases", invariants=("BuilderOK",), replay_args=(), timeout=3000):
+    """TLC enumerates the world's cases, the harness replays them; returns the harness result"""
+    wd = sub(tag)
+    r = run_tlc(module, cases_cfg(invariants), wd, files={"world.json": world}, timeout=timeout)
+    chk.add_tlc(r)
+    if r.violation:
+        raise Infra("model invariant %s violated in %s:\n%s" % (r.violation, tag, r.out[-2500:]))
+    with open(os.path.join(wd, "cases.ndjson"), "w") as fh:
+        for c in r.cases:
+            fh.write(json.dumps(c) + "\n")
+    harness(["replay", "-world", os.path.join(wd, "world.json"), "-cases", os.path.join(wd, "cases.ndjson"),
+             "-out", os.path.join(wd, "replay.json")] + list(replay_args))
+    res = json.load(open(os.path.join(wd, "replay.json")))
+    res["mismatches"] = res.get("mismatches") or []
+    res["samples"] = res.get("samples") or []
+    log("%s: %d atoms, %d trees, %d evaluations, outcomes %s, skipped %d %s" % (
+        tag, len(world["atoms"]), res["cases"], res["evals"], res["byoutcome"], res["skipped"], res["skipwhy"]))
+    if res["evals"] == 0:
+        raise Infra("%s: nothing was evaluated" % tag)
+    return res
+
+
+def run_relate(chk, tag, world, mode, invariants=("BuilderOK",), module="Cases", extra=(), timeout=3000):
+    """TLC enumerates the world's trees; the harness records observation groups of the real code for them;
+    TLC (spec/Rel.tla) validates every group against the law the specification states for it.
+    Returns (summary, list of bad groups)."""
+    wd = sub(tag)
+    r = run_tlc(module, cases_cfg(invariants), wd, files={"world.json": world}, timeout=timeout)
+    chk.add_tlc(r)
+    if r.violation:
+        raise Infra("model invariant %s violated in %s:\n%s" % (r.violation, tag, r.out[-2500:]))
+    with open(os.path.join(wd, "cases.ndjson"), "w") as fh:
+        for c in r.cases:
+            fh.write(json.dumps(c) + "\n")
+    harness(["relate", "-mode", mode, "-world", os.path.join(wd, "world.json"), "-cases", os.path.join(wd, "cases.ndjson"),
+             "-groups", os.path.join(wd, "groups.ndjson"), "-out", os.path.join(wd, "relate.json")] + list(extra))
+    summ = json.load(open(os.path.join(wd, "relate.json")))
+    bad = validate_groups(chk, wd, os.path.join(wd, "groups.ndjson"))
+    log("%s: %d trees, %d groups %s, %d evaluations, skipped %s, %d bad" % (
+        tag, summ["trees"], summ["groups"], summ["byrel"], summ["evals"], summ["skipped"], len(bad)))
+    if summ["groups"] == 0:
+        raise Infra("%s: no observation group was recorded" % tag)
+    return summ, bad
+
+
+def validate_groups(chk, wd, gfile):
+    """spec/Rel.tla steps through the recorded groups; returns the groups it rejects"""
+    groups = [json.loads(l) for l in open(gfile)]
+    if not groups:
+        return []
+    cfg = 'SPECIFICATION Spec\nCONSTANT GroupFile = "%s"\nPOSTCONDITION Consumed\nCHECK_DEADLOCK FALSE\n' % os.path.basename(gfile)
+    r = run_tlc("Rel", cfg, wd, workers=1, timeout=1800, want_cases=False)
+    chk.add_tlc(r)
+    if r.violation:
+        raise Infra("trace of groups not consumed: %s\n%s" % (r.violation, r.out[-1500:]))
+    if r.distinct != len(groups) + 1:
+        raise Infra("Rel consumed %d of %d groups" % (r.distinct - 1, len(groups)))
+    bad = []
+    for l in r.prints:
+        m = re.match(r'"BAD (\d+)"', l)
+        if m:
+            bad.append(groups[int(m.group(1)) - 1])
+    chk.cov["traces_validated_against_impl"] += len(groups)
+    return bad
 
 
 # ---------------------------------------------------------------------------------------
@@ -496,5 +644,10 @@ def main(fn, pid):
         rc = fn()
     except Infra as e:
         log("INFRASTRUCTURE ERROR (%s): %s" % (pid, e))
+        sys.exit(2)
+    except BaseException as e:  # a bug in the machinery is never a violation
+        import traceback
+        traceback.print_exc()
+        log("INFRASTRUCTURE ERROR (%s): unexpected %s" % (pid, type(e).__name__))
         sys.exit(2)
     sys.exit(rc)
